@@ -302,7 +302,11 @@ func shapeMain(root, out string) error {
 	hr := cl.fn("ClientConn", "handleRead")
 	lfr := cl.fn("ClientConn", "listenForRead")
 	nac := cl.fn("ClientConn", "newAddrConn")
+	rmc := cl.fn("ClientConn", "registerMethodCall")
 	facts["struct"] = map[string]bool{
+		// handing a response to its call never blocks (the model's response goroutine ends by its own step): the delivery is
+		// a select with a default arm on a channel which has room
+		"resp_nonblocking": hasSelectWith(body(rmc), "wait <- ", "default"),
 		// the fresh transport is closed after ac.mu has been released (the close callback needs the lock)
 		"rt_unlock_before_close": stmtBefore(body(rtf), "ac.mu.Unlock", "newTr.Close"),
 		// the pause between two connection attempts ends with the connection's context
